@@ -43,7 +43,7 @@ theorem reindex_reindex (l : List Nat) (s t : Nat → Nat) (ht : ∀ p, p < l.le
   · intro p h1 h2
     have hp : p < l.length := by simpa using h2
     have htp := ht p hp
-    simp [reindex, List.getD_eq_getElem?_getD, hp, htp]
+    simp [reindex, List.getD_eq_getElem?_getD, htp]
 
 theorem heapsSwap_length (K i : Nat) (l : List Nat) : (heapsSwap K i l).length = l.length := by
   unfold heapsSwap
